@@ -4440,10 +4440,14 @@ def unify_chunks(*args, **kwargs):
         if i is None:
             arrays.append(a)
         else:
+            # A dimension of length one is broadcast against the other inputs
+            # and stays a single chunk, unless the unified dimension itself
+            # has length one (e.g. chunks (1, 0, 0)): then it is an ordinary
+            # dimension and must get the common chunks like every other input.
             chunks = tuple(
                 (
                     chunkss[j]
-                    if a.shape[n] > 1
+                    if a.shape[n] > 1 or sum(chunkss[j]) == a.shape[n]
                     else a.shape[n] if not np.isnan(sum(chunkss[j])) else None
                 )
                 for n, j in enumerate(i)
